@@ -194,7 +194,11 @@ class Ctx:
             # sign digit (0 or -1): -1 = (2^s - 1) + 2^s * (-1): no new variables needed
             return Poly.var(v), Poly.var(v).scale(-((1 << s) - 1))
         key = self.owner.get(v)
-        lo_v = self.fresh("d", 0, min(hi_b, (1 << s) - 1))
+        if (lo_b >> s) == (hi_b >> s):
+            qq = lo_b >> s
+            lo_v = self.fresh("d", lo_b - (qq << s), hi_b - (qq << s))
+        else:
+            lo_v = self.fresh("d", 0, (1 << s) - 1)
         hi_v = self.fresh("d", lo_b >> s, hi_b >> s)
         self.split[v] = Poly.var(lo_v) + Poly.var(hi_v).scale(1 << s)
         if key is not None:
